@@ -77,6 +77,18 @@ fn check_value<T: Fam>(x: &T, obs: &mut Obs) -> Result<(), Fail> {
                         _ => false,
                     }
                 }
+                // whatever the DOM route makes of the parsed text, it never yields a *different* value
+                if let Ok(pv) = sonic_rs::from_str::<Value>(&text) {
+                    if let Ok(y) = sonic_rs::from_value::<T>(&pv) {
+                        ensure!(&y == x, format!("C19/{name}/from_value-differs"), "{name}: from_value(parse(to_string(x))) = {:?} although x = {:?} (text {:?})", trunc(&format!("{y:?}"), 200), trunc(&format!("{x:?}"), 200), trunc(&text, 200));
+                    }
+                    let raw: Result<Value, _> = sonic_rs::Deserializer::from_str(&text).use_rawnumber().deserialize();
+                    if let Ok(rv) = raw {
+                        if let Ok(y) = sonic_rs::from_value::<T>(&rv) {
+                            ensure!(&y == x, format!("C19/{name}/from_value-differs"), "{name}: from_value(raw-number parse of to_string(x)) = {:?} although x = {:?} (text {:?})", trunc(&format!("{y:?}"), 200), trunc(&format!("{x:?}"), 200), trunc(&text, 200));
+                        }
+                    }
+                }
                 if !oor_value(&model) {
                     if let Ok(pv) = sonic_rs::from_str::<Value>(&text) {
                         let viadom: T = sonic_rs::from_value(&pv).map_err(|e| Fail::new(format!("C19/{name}/from_value-fails"), format!("{name}: from_value(parse(to_string(x))) failed although from_str(to_string(x)) succeeds: {e}; text {:?}", trunc(&text, 200))))?;
@@ -108,6 +120,13 @@ fn check_value<T: Fam>(x: &T, obs: &mut Obs) -> Result<(), Fail> {
     // (c) from_str(to_string(x)) == x
     let back: T = sonic_rs::from_str(&text).map_err(|e| Fail::new(format!("C19/{name}/text-readback"), format!("{name}: from_str(to_string(x)) failed for {:?}: {e}", trunc(&text, 200))))?;
     ensure!(&back == x, format!("C19/{name}/text-readback"), "{name}: from_str(to_string(x)) = {:?}, x = {:?}", trunc(&format!("{back:?}"), 200), trunc(&format!("{x:?}"), 200));
+    // the raw-number DOM of the text reads back as x as well (or fails, it never gives another value)
+    if let Ok(rv) = sonic_rs::Deserializer::from_str(&text).use_rawnumber().deserialize::<Value>() {
+        if let Ok(y) = sonic_rs::from_value::<T>(&rv) {
+            ensure!(&y == x, format!("C19/{name}/from_value-differs"), "{name}: from_value(raw-number parse of to_string(x)) = {:?} although x = {:?}", trunc(&format!("{y:?}"), 200), trunc(&format!("{x:?}"), 200));
+        }
+        ensure!(rv == pv && pv == rv, format!("C19/{name}/raw-vs-plain"), "{name}: the raw-number DOM and the plain DOM of {:?} are not equal", trunc(&text, 200));
+    }
     // from_value of the parsed text as well
     let back: T = sonic_rs::from_value(&pv).map_err(|e| Fail::new(format!("C19/{name}/from_value-fails"), format!("{name}: from_value(parse(to_string(x))) failed: {e}")))?;
     ensure!(&back == x, format!("C19/{name}/from_value-differs"), "{name}: from_value(parse(to_string(x))) differs from x = {:?}", trunc(&format!("{x:?}"), 200));
